@@ -230,6 +230,48 @@ fn count_ops(e: &Expr) -> usize {
     }
 }
 
+// Long flat chains (left-associated by the rule) and deeply parenthesised
+// operands, compared as trees.
+fn long_cases() -> Vec<(Case, bool)> {
+    let mut out = vec![];
+    for n in [17usize, 33, 64] {
+        for (k, ops) in [vec!["+"], vec!["-"], vec!["*"], vec!["&&", "||"], vec!["+", "*", "-", "/"], vec!["==", "<", "+"], vec!["..", "+"]].into_iter().enumerate() {
+            let mut operands = vec![];
+            let mut chosen = vec![];
+            let mut src = String::new();
+            for j in 0..n {
+                let name = format!("v{j}");
+                if j > 0 {
+                    let sym = ops[(j + k) % ops.len()];
+                    chosen.push(BINOPS.iter().copied().find(|o| o.0 == sym).unwrap());
+                    src.push_str(&format!(" {sym} "));
+                }
+                src.push_str(&name);
+                operands.push(var(&name));
+            }
+            src.push('\n');
+            let e = group(&operands, &chosen);
+            out.push((tree_case("long_chain", src, &e, format!("flat chain of {n} operands")), true));
+        }
+        // ((((a + 1) + 2) ...)) and a + (1 + (2 + ...)) written with explicit parentheses.
+        let mut left = var("a");
+        let mut src_l = String::from("a");
+        for j in 0..n {
+            left = bin(Op::Sub, left, int(j as i64));
+            src_l = format!("({src_l} - {j})");
+        }
+        out.push((tree_case("deep_parens", format!("{src_l}\n"), &left, format!("{n} nested parenthesised left operands")), true));
+        let mut right = var("z");
+        let mut src_r = String::from("z");
+        for j in 0..n {
+            right = bin(Op::Sub, int(j as i64), right);
+            src_r = format!("({j} - {src_r})");
+        }
+        out.push((tree_case("deep_parens", format!("{src_r}\n"), &right, format!("{n} nested parenthesised right operands")), true));
+    }
+    out
+}
+
 fn minus_cases() -> Vec<(Case, bool)> {
     let a = || var("a");
     let list: Vec<(&str, Expr)> = vec![
@@ -324,6 +366,7 @@ pub fn run(ctx: &Ctx) {
     }
     ctx.mark_exhaustive(&format!("all operator sequences of length 1..={maxlen} over 16 binary operators"));
     ctx.judge_all(minus_cases(), Via::Cli, None);
+    ctx.judge_all(long_cases(), Via::Cli, None);
     let n = ctx.n(100_000, 2_000_000);
     ctx.proptest_tapes("trees", n, 300, Via::Cli, None, |t| {
         let dd = 2 + t.pick(6);
